@@ -19,8 +19,20 @@ def is_rejection(exc):
         return True
     if isinstance(exc, (ValueError, AssertionError)):
         msg = str(exc)
-        return any(m in msg for m in REJECT_MARKERS)
+        return any(m in msg for m in REJECT_MARKERS) and _raised_by_repo_code(exc)
     return False
+
+
+def _raised_by_repo_code(exc):
+    """the innermost frame is the repository's own code (its own raise / assert), not a library failing underneath it"""
+    import os
+    tb = exc.__traceback__
+    if tb is None:
+        return True
+    while tb.tb_next is not None:
+        tb = tb.tb_next
+    fn = os.path.realpath(tb.tb_frame.f_code.co_filename)
+    return fn.startswith(os.path.realpath(lift.repo_path()))
 
 
 def sym_x(n, prefix='x'):
